@@ -987,6 +987,10 @@ impl<'a, 'b> Gen<'a, 'b> {
 
     /// module-level items of this part
     pub fn misc_module_item2(&mut self) {
+        if self.t.chance(1, 4) {
+            self.misc_module_item3(true);
+            return;
+        }
         match self.t.below(7) {
             0 => self.bind_directive(),
             1 => self.let_declaration(),
@@ -1041,6 +1045,10 @@ impl<'a, 'b> Gen<'a, 'b> {
 
     /// statements of this part (never first in a block where a declaration could be meant)
     pub fn stmt_more(&mut self, depth: usize) {
+        if self.t.chance(1, 4) {
+            self.stmt_more2();
+            return;
+        }
         match self.t.below(10) {
             0 => {
                 self.tag("stmt-cycle-delay");
